@@ -191,16 +191,294 @@ theorem winv_run (evs : List WEv) (s s' : WState) (hs : WInv s) (h : wrun s evs 
       exact ih s1 (winv_step s s1 e hs h1) h
     · cases h
 
+/-- the two configuration constants never change. -/
+theorem wconst_step (s s' : WState) (e : WEv) (h : wstep s e = some s') :
+    s'.bufSize = s.bufSize ∧ s'.kMin = s.kMin := by
+  cases e <;> simp only [wstep] at h <;> (repeat' split at h) <;> cases h <;>
+    simp [WState.produce, WState.drainAll]
+
+theorem wconst_run (evs : List WEv) (s s' : WState) (h : wrun s evs = some s') :
+    s'.bufSize = s.bufSize ∧ s'.kMin = s.kMin := by
+  induction evs generalizing s with
+  | nil =>
+    simp only [wrun] at h
+    injection h with h
+    subst h
+    exact ⟨rfl, rfl⟩
+  | cons e es ih =>
+    simp only [wrun] at h
+    split at h
+    · rename_i s1 h1
+      have h2 := ih s1 h
+      have h3 := wconst_step s s1 e h1
+      exact ⟨h2.1.trans h3.1, h2.2.trans h3.2⟩
+    · cases h
+
 /-! ## reader -/
 
 theorem rbound_step (s s' : RState) (e : REv) (hs : s.nout ≤ s.amount) (h : rstep s e = some s') :
     s'.nout ≤ s'.amount := by
-  cases e <;> simp only [rstep] at h <;> split at h
-  all_goals first
-    | cases h
-    | (injection h with h; subst h; simp_all; done)
-    | skip
-  all_goals trace_state
-  all_goals sorry
+  cases e <;> simp only [rstep] at h <;> (repeat' split at h) <;> cases h <;> simp_all
+
+theorem rbound_run (evs : List REv) (s s' : RState) (hs : s.nout ≤ s.amount) (h : rrun s evs = some s') :
+    s'.nout ≤ s'.amount := by
+  induction evs generalizing s with
+  | nil =>
+    simp only [rrun] at h
+    injection h with h
+    subst h
+    exact hs
+  | cons e es ih =>
+    simp only [rrun] at h
+    split at h
+    · rename_i s1 h1
+      exact ih s1 (rbound_step s s1 e hs h1) h
+    · cases h
+
+/-- every codec call is an event of its own. -/
+theorem rsteps_step (s s' : RState) (e : REv) (h : rstep s e = some s') : s'.steps ≤ s.steps + 1 := by
+  cases e <;> simp only [rstep] at h <;> (repeat' split at h) <;> cases h <;> simp
+
+theorem rsteps_run (evs : List REv) (s s' : RState) (h : rrun s evs = some s') :
+    s'.steps ≤ s.steps + evs.length := by
+  induction evs generalizing s with
+  | nil =>
+    simp only [rrun] at h
+    injection h with h
+    subst h
+    simp
+  | cons e es ih =>
+    simp only [rrun] at h
+    split at h
+    · rename_i s1 h1
+      have := ih s1 h
+      have := rsteps_step s s1 e h1
+      simp only [List.length_cons]
+      omega
+    · cases h
+
+/-! ### the real no-spin bound: codec calls ≤ compressed bytes supplied + Read calls -/
+
+def isRead : REv → Bool
+  | .read _ => true
+  | _ => false
+
+/-- one codec call is still owed to the Read call while it sits at the loop head. -/
+def credit : RMode → Nat
+  | .head _ => 1
+  | _ => 0
+
+structure RInv (s : RState) (r : Nat) : Prop where
+  pot : s.steps + s.availIn + credit s.mode ≤ s.fed + r
+  flag : ∀ f b, s.mode = .awaitRes f b → s.availIn = 0 → f = true
+
+/-- contract C1 for the answer `e` to the call the state is waiting on. -/
+def pokStep (s : RState) (e : REv) : Prop :=
+  ∀ f b ain nout, s.mode = .awaitRes f b → e = .ok ain nout → (s.availIn = 0 ∨ ain < s.availIn ∨ 0 < nout)
+
+def pokHead (s : RState) : List REv → Prop
+  | [] => True
+  | e :: _ => pokStep s e
+
+theorem rinv_init (already : Nat) : RInv (rinit already) 0 := by
+  constructor <;> simp [rinit, credit]
+
+theorem rinv_step_read (s s' : RState) (r n : Nat) (hs : RInv s r) (h : rstep s (.read n) = some s') :
+    RInv s' (r + 1) := by
+  obtain ⟨pot, flag⟩ := hs
+  simp only [rstep] at h
+  split at h
+  · rename_i hc
+    injection h with h
+    subst h
+    constructor
+    · simp_all [credit]
+      omega
+    · simp
+  · cases h
+
+theorem rinv_step_input (s s' : RState) (r n : Nat) (hs : RInv s r) (h : rstep s (.input n) = some s') :
+    RInv s' r := by
+  obtain ⟨pot, flag⟩ := hs
+  simp only [rstep] at h
+  split at h
+  · rename_i f hm
+    split at h
+    · injection h with h
+      subst h
+      constructor
+      · simp_all [credit]
+        omega
+      · simp
+    · cases h
+  · cases h
+
+theorem rinv_step_proc (s s' : RState) (r a b : Nat) (hs : RInv s r) (h : rstep s (.proc a b) = some s') :
+    RInv s' r := by
+  obtain ⟨pot, flag⟩ := hs
+  simp only [rstep] at h
+  split at h
+  · rename_i f hm
+    split at h
+    · rename_i hc
+      injection h with h
+      subst h
+      constructor
+      · simp_all [credit]
+        omega
+      · intro f' b' hm' ha
+        simp only [RMode.awaitRes.injEq] at hm'
+        simp only at ha
+        obtain ⟨hc1, hc2, hc3⟩ := hc
+        rw [← hm'.1]
+        simp_all
+    · cases h
+  · cases h
+
+theorem rinv_step_ok (s s' : RState) (r a n : Nat) (hs : RInv s r) (hp : pokStep s (.ok a n))
+    (h : rstep s (.ok a n) = some s') : RInv s' r := by
+  obtain ⟨pot, flag⟩ := hs
+  simp only [rstep] at h
+  split at h
+  · rename_i f before hm
+    have hprog := hp f before a n hm rfl
+    have hflag := flag f before hm
+    split at h
+    · rename_i hc
+      obtain ⟨hc1, hc2, hc3⟩ := hc
+      split at h
+      · injection h with h
+        subst h
+        constructor
+        · simp_all [credit]
+          omega
+        · simp
+      · rename_i hnf
+        split at h
+        · rename_i hn0
+          injection h with h
+          subst h
+          constructor
+          · have hlt : a < s.availIn := by
+              rcases hprog with h0 | hlt | hpos
+              · exfalso
+                apply hnf
+                have hb : before = 0 := by omega
+                simp [hflag h0, hn0, hb]
+              · exact hlt
+              · omega
+            simp_all [credit]
+            omega
+          · simp
+        · injection h with h
+          subst h
+          constructor
+          · simp_all [credit]
+            omega
+          · simp
+    · cases h
+  · cases h
+
+theorem rinv_step_end (s s' : RState) (r a n : Nat) (hs : RInv s r) (h : rstep s (.end_ a n) = some s') :
+    RInv s' r := by
+  obtain ⟨pot, flag⟩ := hs
+  simp only [rstep] at h
+  split at h
+  · rename_i f before hm
+    split at h
+    · injection h with h
+      subst h
+      constructor
+      · simp_all [credit]
+        omega
+      · simp
+    · cases h
+  · cases h
+
+theorem rinv_step_ret (s s' : RState) (r n : Nat) (hs : RInv s r) (h : rstep s (.ret n) = some s') :
+    RInv s' r := by
+  obtain ⟨pot, flag⟩ := hs
+  simp only [rstep] at h
+  split at h
+  · rename_i m hm
+    split at h
+    · injection h with h
+      subst h
+      constructor
+      · simp_all [credit]
+      · simp
+    · cases h
+  · cases h
+
+theorem rinv_step (s s' : RState) (r : Nat) (e : REv) (hs : RInv s r) (hp : pokStep s e)
+    (h : rstep s e = some s') : RInv s' (r + if isRead e then 1 else 0) := by
+  cases e with
+  | read n => exact rinv_step_read s s' r n hs h
+  | input n => exact rinv_step_input s s' r n hs h
+  | proc a b => exact rinv_step_proc s s' r a b hs h
+  | ok a n => exact rinv_step_ok s s' r a n hs hp h
+  | end_ a n => exact rinv_step_end s s' r a n hs h
+  | ret n => exact rinv_step_ret s s' r n hs h
+
+theorem progressOk_tail (e : REv) (es : List REv) (h : progressOk (e :: es) = true) :
+    progressOk es = true := by
+  unfold progressOk at h
+  split at h
+  · rename_i heq
+    injection heq with h1 h2
+    subst h2
+    simp only [Bool.and_eq_true] at h
+    exact h.2
+  · rename_i heq
+    injection heq with h1 h2
+    subst h2
+    exact h
+  · rename_i heq
+    cases heq
+
+theorem progressOk_head (a b a' n : Nat) (rest : List REv)
+    (h : progressOk (.proc a b :: .ok a' n :: rest) = true) : a = 0 ∨ a' < a ∨ 0 < n := by
+  simp only [progressOk, Bool.and_eq_true, Bool.or_eq_true, decide_eq_true_eq] at h
+  omega
+
+/-- only a `proc` event leads into `awaitRes`, and it fixes the input the codec is called with. -/
+theorem rstep_await (s s' : RState) (e : REv) (f : Bool) (b : Nat) (h : rstep s e = some s')
+    (hm : s'.mode = .awaitRes f b) : ∃ a sp, e = .proc a sp ∧ s'.availIn = a := by
+  cases e with
+  | proc a sp =>
+    refine ⟨a, sp, rfl, ?_⟩
+    simp only [rstep] at h
+    (repeat' split at h) <;> cases h <;> rfl
+  | _ =>
+    simp only [rstep] at h
+    (repeat' split at h) <;> cases h <;> simp at hm
+
+theorem rinv_run (evs : List REv) (s s' : RState) (r : Nat) (hs : RInv s r) (hh : pokHead s evs)
+    (hp : progressOk evs = true) (h : rrun s evs = some s') : RInv s' (r + evs.countP isRead) := by
+  induction evs generalizing s r with
+  | nil =>
+    simp only [rrun] at h
+    injection h with h
+    subst h
+    simpa using hs
+  | cons e es ih =>
+    simp only [rrun] at h
+    split at h
+    · rename_i s1 h1
+      have hs1 := rinv_step s s1 r e hs hh h1
+      have hh1 : pokHead s1 es := by
+        cases es with
+        | nil => trivial
+        | cons e2 rest =>
+          intro f b ain nout hm he2
+          obtain ⟨a, sp, he, ha⟩ := rstep_await s s1 e f b h1 hm
+          subst he he2
+          rw [ha]
+          exact progressOk_head a sp ain nout rest hp
+      have := ih s1 _ hs1 hh1 (progressOk_tail e es hp) h
+      rw [List.countP_cons]
+      rw [Nat.add_assoc, Nat.add_comm (List.countP isRead es)] at *
+      exact this
+    · cases h
 
 end PV.Lemmas.Compress
